@@ -199,7 +199,7 @@ def run(ctx):
             else:
                 cases.append(coq_hist(c))
                 labels.append((k, c))
-        okc, idx, clog = ctx.eval_cases(IMPORTS, "list op", cases, "  check_lin c", shard=4, timeout=1200)
+        okc, idx, clog = ctx.eval_cases(IMPORTS, "list op", cases, "  check_lin c", shard=1, timeout=1200)
         if not okc:
             corr_ok = False
             detail["cases"] = clog
@@ -210,7 +210,7 @@ def run(ctx):
             gcases = [coq_hist(hist[k]) for k in groups]
             okg, gidx, glog = ctx.eval_cases(IMPORTS, "list op", gcases,
                                              "  group_history [0%N; 1%N; 2%N; 3%N] c && untorn [0%N; 1%N; 2%N; 3%N] c",
-                                             shard=4, timeout=900, name="Group")
+                                             shard=1, timeout=900, name="Group")
             if not okg:
                 corr_ok = False
                 detail["group_cases"] = glog
